@@ -8,12 +8,15 @@ Values are written in prefix notation, tokens separated by single spaces:
   | B - <fn> (bound to the holder) | B <owner> <fn> | F <id> | C <id> | M <id> | _ (MISSING) | SELF
 Commands:
   reset
-  cls <id> <name> <parent|-> <key index|-> <n> then n times: <name>:<compare><repr><init><doNotCopy> <default value>
+  cls <id> <name> <parent|-> <key index|-> <spec 0|1> <n> then n times:
+      <name>:<compare><repr><init><doNotCopy>:<owner class id> <default value>
   st <idx> <value>            define state idx
   eq <i> <j>                  -> 1|0      (x == y)
   dc <i>                      -> 1|0      (deepcopy(x) == x)
   dca <i>                     -> 1|0      (deepcopy keeps EVERY attribute, compare=False ones included)
-  rc <i>                      -> <reconstructible 1|0> <1|0>   (type(x)(**own values) == x)
+  rc <i>                      -> <reconstructible 1|0> <1|0>   (type(x)(**own values) == x, through `construct`)
+  new <cls> <n> v..           -> I <cls> <n> v..   what `cls(**kwargs)` shows (`_` = not passed / MISSING); owners of
+                                 bound methods that the constructor copied are printed as `c`
   repr <i>                    -> <ClassName> <attr>=<kind> ...
 -/
 open SpecVerif.C10
@@ -98,13 +101,14 @@ partial def parseAttrs (n : Nat) (ts : List String) : Option (List AttrInfo) :=
     match ts with
     | spec :: r =>
       match spec.splitOn ":" with
-      | [name, flags] =>
+      | [name, flags, owner] =>
         match flags.toList with
         | [c, rp, i, d] => do
+          let ow ← owner.toNat?
           let (dv, r) ← parseVal r
           let rest ← parseAttrs n r
           pure ({ name := name, compare := c == '1', repr := rp == '1', init := i == '1',
-                  doNotCopy := d == '1', dflt := dv } :: rest)
+                  doNotCopy := d == '1', dflt := dv, owner := ow } :: rest)
         | _ => none
       | _ => none
     | [] => none
@@ -119,20 +123,56 @@ def showKind (T : Table) : Kind → String
 
 def b2s (b : Bool) : String := if b then "1" else "0"
 
+mutual
+partial def showVal : Val → List String
+  | .none => ["N"]
+  | .int n => [s!"i{n}"]
+  | .str t => ["s" ++ t]
+  | .flt n => [s!"f{n}"]
+  | .list xs => ["L", toString (lenV xs)] ++ showVals xs
+  | .dict kvs => let r := showKVs kvs; ["D", toString r.1] ++ r.2
+  | .set xs => ["S", toString (lenV xs)] ++ showVals xs
+  | .inst c fs => ["I", toString c, toString (lenV fs)] ++ showVals fs
+  | .bound none f => ["B", "-", toString f]
+  | .bound (some o) f => ["B", if o ≥ copyOffset then "c" else toString o, toString f]
+  | .func i => ["F", toString i]
+  | .cls i => ["C", toString i]
+  | .mod i => ["M", toString i]
+  | .missing => ["_"]
+  | .selfRef => ["SELF"]
+partial def showVals : Vals → List String
+  | .nil => []
+  | .cons v r => showVal v ++ showVals r
+partial def showKVs : KVs → Nat × List String
+  | .nil => (0, [])
+  | .cons k v r => let t := showKVs r; (t.1 + 1, showVal k ++ showVal v ++ t.2)
+end
+
 def handle (d : DSt) (line : String) : DSt × String :=
   match (line.trimAscii.toString.splitOn " ").filter (· ≠ "") with
   | ["reset"] => ({}, "ok")
-  | "cls" :: _id :: name :: parent :: key :: n :: rest =>
+  | "cls" :: _id :: name :: parent :: key :: spec :: n :: rest =>
     match n.toNat?.bind (fun n => parseAttrs n rest) with
     | none => (d, "bad-cls")
     | some attrs =>
-      let ci : ClassInfo := { name := name, parent := parent.toNat?, attrs := attrs, key := key.toNat? }
+      let ci : ClassInfo := { name := name, parent := parent.toNat?, attrs := attrs, key := key.toNat?, spec := spec == "1" }
       ({ d with table := d.table ++ [ci] }, "ok")
+  | "new" :: c :: n :: rest =>
+    match c.toNat?, n.toNat?.bind (fun n => parseVals n rest parseVal) with
+    | some c, some (kw, []) =>
+      let fs := construct d.table c kw
+      (d, " ".intercalate (["I", toString c, toString (lenV fs)] ++ showVals fs))
+    | _, _ => (d, "bad-new")
   | "st" :: idx :: rest =>
     match idx.toNat?, parseVal rest with
     | some i, some (v, []) =>
       ({ d with states := (i, v) :: d.states },
-       s!"ok wf={b2s (wfVal d.table v && wfTable d.table)} acyclic={b2s (okVal v)}")
+       -- scope of the theorems: well-formed values and table; the init-enabled attributes of the instance's
+       -- class are owned by the classes whose constructors run (`ownersOk`)
+       let own := match v with
+         | .inst c _ => ownersOk d.table c
+         | _ => true
+       s!"ok wf={b2s (wfVal d.table v && wfTable d.table && own)} acyclic={b2s (okVal v)}")
     | _, _ => (d, "bad-st")
   | ["eq", i, j] =>
     match i.toNat?.bind d.get, j.toNat?.bind d.get with
